@@ -340,6 +340,15 @@ func genKeysInput(t *rapid.T) interface{} {
 		}
 		in.R2 = r
 	}
+	if k1 == k2 && (k1 == "bind" || k1 == "pricing" || k1 == "active") && pct(t, "byte_moved_between_fields", 12) {
+		// the same bytes split differently between two neighbouring fields: ("a", "b"+P) and ("ab", P).
+		// Only a separator (or a length) between the fields keeps the two keys apart.
+		letter := pick(t, "moved_letter", []string{"b", "c", "Z", "0", "-"})
+		in.R1.A = hx([]byte(letter)) + in.R1.A
+		r := in.R1
+		r.Name, r.A = in.R1.Name+letter, in.R1.A[2:]
+		in.R2 = r
+	}
 	return in
 }
 
